@@ -91,6 +91,12 @@ LET: dict = {
     'Q2T': {'k': 'expr', 'e': {'T': 'Q2'}},
     'QqT': {'k': 'expr', 'e': {'T': 'Qq'}},
     'A23T': {'k': 'expr', 'e': {'T': 'A23'}},
+    # named compositions and sums (operands that are themselves composites, reused across expressions)
+    'CAB': {'k': 'expr', 'e': {'mm': ['A22', 'B22']}},
+    'CW': {'k': 'expr', 'e': {'mm': ['A23', 'A33']}},
+    'SAB': {'k': 'expr', 'e': {'add': ['A22', 'B22']}},
+    'SW': {'k': 'expr', 'e': {'add': ['A32', 'A32']}},
+    'NS': {'k': 'expr', 'e': {'neg': 'SAB'}},
     # block operators
     'BD': {'k': 'bdiagop', 'blocks': ['A22', 'B22']},
     'BD2': {'k': 'bdiagop', 'blocks': ['B22', 'S22']},
